@@ -44,6 +44,10 @@ CAT = {
     'Unenc': (I1, 'Unenc', '', 'u', 'unencodable', 'Err.Unencodable', 1),
     'Arity': (I1, 'Arity', '', 'us', 'unencodable', 'Err.Unencodable', 1),
     'Caller': (I1, 'Caller', '', 's', 'value', 'Caller', 1),
+    # the same request for the caller's name on a method wrapped by a decorator (inlineCallbacks) ...
+    'CallerIC': (I1, 'CallerIC', '', 's', 'value', 'CallerIC', 1),
+    # ... and spelled as a keyword-only parameter
+    'CallerKW': (I1, 'CallerKW', '', 's', 'value', 'CallerKW', 1),
     'Both1': (I1, 'Both', '', 's', 'value', 'Both1', 1),
     'Both2': (I2, 'Both', '', 's', 'value', 'Both2', 2),
     'Old': (I0, 'Old', 's', 's', 'value', 'Old', 3),
@@ -191,6 +195,16 @@ def build():
 
         def dbus_Caller(self, dbusCaller=None):
             self.log('Caller', (), dbusCaller)
+            return dbusCaller
+
+        @defer.inlineCallbacks
+        def dbus_CallerIC(self, dbusCaller=None):
+            self.log('CallerIC', (), dbusCaller)
+            yield defer.succeed(None)
+            defer.returnValue(dbusCaller)
+
+        def dbus_CallerKW(self, *, dbusCaller=None):
+            self.log('CallerKW', (), dbusCaller)
             return dbusCaller
 
         @objects.dbusMethod(I1, 'Both')
@@ -391,7 +405,7 @@ class ObjectsDriver:
             return '?error %s %r' % (n, text)
         key = find_key(c)
         want = {'Val': ['v:' + arg], 'Multi': ['m', 7], 'Arr': [['solo']], 'Struct': [['t', 3]], 'NoneRet': None,
-                'Defer': ['d:' + arg], 'Caller': [sender], 'Both1': ['one:' + sender], 'Both2': ['two'],
+                'Defer': ['d:' + arg], 'Caller': [sender], 'CallerIC': [sender], 'CallerKW': [sender], 'Both1': ['one:' + sender], 'Both2': ['two'],
                 'Old': ['old:' + arg], 'Inh': ['inh'], 'Mix': ['mix'], 'Shared': ['sh'], 'Ping': ['own ping']}.get(key, '?')
         body = m.body if m.body else None
         sig_ok = (m.signature or '') == CAT[key][3] if key else False
@@ -425,7 +439,7 @@ class ObjectsDriver:
             key = find_key(c)
             for (_, k, args, caller) in rs:
                 want_args = (arg,) if key and CAT[key][2] else ()
-                want_caller = sender if key in ('Caller', 'Both1') else None
+                want_caller = sender if key in ('Caller', 'CallerIC', 'CallerKW', 'Both1') else None
                 if k != key or args != want_args or caller != want_caller:
                     n = 100 + n        # ran, but the wrong implementation / arguments / caller
             ran.append(n)
